@@ -1820,8 +1820,16 @@ func (c *Conn) readHeader(b []byte, res *fasthttp.Response, trailers bool) error
 
 	dec := c.dec
 
-	for len(b) > 0 {
-		b, err = dec.Next(hf, b)
+	// b is a whole header block, so the decoder can be told where in it each
+	// field sits: a dynamic table size update anywhere but at the start makes
+	// the block invalid (RFC 7541 4.2).
+	for fields := 0; len(b) > 0; fields++ {
+		b, err = dec.nextField(hf, true, fields, b)
+		if err == errNoField {
+			// Nothing but size updates were left.
+			break
+		}
+
 		if err != nil {
 			return NewGoAwayError(CompressionError, err.Error())
 		}
